@@ -365,7 +365,11 @@ func traceFS(o opts) error {
 				seq = append(seq, canon(l, stateDir, target))
 			}
 		}
-		emit("fsseq\top=%s\tseq=%s\tpre=%s\tpost=%s", op, strings.Join(seq, ","), pre, post)
+		postOK := "1"
+		if strings.HasPrefix(op, "cache") && post != hb([]byte(cacheDocNew)) {
+			postOK = "0" // the file must hold exactly the document that was written (no remains of a longer one)
+		}
+		emit("fsseq\top=%s\tseq=%s\tpre=%s\tpost=%s\tpostok=%s", op, strings.Join(seq, ","), pre, post, postOK)
 		// the index (1-based, per system-call name, whole process) of each window call
 		count := map[string]int{}
 		type tgt struct {
@@ -463,12 +467,13 @@ func traceFS(o opts) error {
 					followup = "OPENERR"
 				} else {
 					su := superuser()
-					d3.Delete(su, "alpha")
-					d3.Delete(su, "beta")
-					if st := fsDiskState(dir, op, kek2); strings.HasPrefix(st, "ERR") || strings.HasPrefix(st, "ABSENT") || strings.HasPrefix(st, "OPENERR") {
-						followup = "UNREADABLE:" + st
-					} else {
-						followup = "ok"
+					followup = "ok"
+					for _, n := range []string{"alpha", "beta"} { // the file is looked at after each of the two saves
+						d3.Delete(su, n)
+						if st := fsDiskState(dir, op, kek2); strings.HasPrefix(st, "ERR") || strings.HasPrefix(st, "ABSENT") || strings.HasPrefix(st, "OPENERR") {
+							followup = "UNREADABLE:" + st
+							break
+						}
 					}
 				}
 			}
